@@ -83,6 +83,13 @@ def check(run: Run) -> None:
             run.check(not bad, "C13.R1", fi, stmt_of(c), f"{name}: text derived from values is escaped", f"{name} parses text built from a value without Python literal escaping ({'; '.join(bad)[:200]}): quotes, backslashes or newlines in the value alter it or are parsed as code; this sink is not in the list of source-text sinks", "repr(value)", show(t)[:300])
     run.floor("C13.R1", n_sinks, 7, "parser sinks in the package")
 
+    # ---------------- R4: the value embedded for a captured name is the callable's own binding at the time of the call
+    run.rule("C13.R4", "captured values are read from a fresh table built from the callable's closure and module globals during the operator call (shared with C04.R3/R6)")
+    from ..report import Relabel
+    from .c04 import check_snapshot
+
+    check_snapshot(Relabel(run, "C13.R4"), TermCtx(m, max_depth=2, opaque={"as_literal", "_parse_source_for_lambda"}), m, m.find_class("_rewrite_captured_vars", in_module="func_adl.util_ast"))
+
     # ---------------- R2
     _check_entry_points(run, ctx, m)
 
